@@ -162,6 +162,20 @@ for _k, _v in ROUND9.items():
     _i = _t.rfind(" Sampling, not proof")
     CLAIMED[_k]["text"] = _t[:_i] + f" Round 9 (DESIGN §13.9): {_v}." + _t[_i:]
 
+ROUND10 = {
+ "C04": "snapshots written while edge assemblies are in a third-core model",
+ "C16": "keep-sets naming one of a pair of parameters whose setters write each other",
+ "C01": "a batch (extend) naming one object twice",
+ "C12": "the duct (second HT9 component, another input temperature) as the fuel blocks' designated target",
+ "C13": "a flux solution (multigroup flux and its scalar) computed with edge assemblies present and joined before their removal, tables of six rows on the corners",
+ "C14": "cross sections of pool assemblies that sat on a symmetry line, looked at on every step",
+ "C02": "an isotope that is not one of its element's natural ones, element selections at block level",
+}
+for _k, _v in ROUND10.items():
+    _t = CLAIMED[_k]["text"]
+    _i = _t.rfind(" Sampling, not proof")
+    CLAIMED[_k]["text"] = _t[:_i] + f" Round 10 (DESIGN §13.10): {_v}." + _t[_i:]
+
 PENDING_IDS = ["C01", "C02", "C03", "C04", "C05", "C12", "C13", "C14", "C16"]
 PENDING = {p: "check not built yet in this session (claimed in DESIGN.md; will move to checks when its oracle runs clean)" for p in PENDING_IDS if p not in CLAIMED}
 
